@@ -52,6 +52,7 @@ def cases(draw, prof=None):
         "seed": draw(st.integers(0, 2**31 - 1)),
         "vf_mode": draw(st.sampled_from(["solution", "solution", "arbitrary"])),
         "vf_raw": draw(st.lists(st.integers(-300, 300), min_size=48, max_size=48)),
+        "twin_first": draw(st.integers(0, 4)) == 0,
     }
 
 
@@ -90,6 +91,17 @@ def check(case):
     init = materialise_agents(spec, ref, case["agents"])
     n = len(case["agents"])
     classes = model_classes(spec, ref) + [f"vf_{case['vf_mode']}"]
+    if case.get("twin_first"):
+        # first simulate a twin model (same names/signatures, other tables) in the same process
+        from ..ir import twin
+
+        tw = twin(spec)
+        try:
+            ftw = simcheck.get_functions(tw, targets=("solve_and_simulate",))
+            simcheck.simulate(ftw, tw, init, case["seed"])
+            classes.append("twin_model_simulated_first")
+        except Exception:  # noqa: BLE001  (only a disturbance)
+            classes.append("twin_model_failed")
     fns = simcheck.get_functions(spec, targets=("solve", "simulate"))
     params = simcheck.to_lcm_params(spec)
     if case["vf_mode"] == "arbitrary":
